@@ -26,6 +26,40 @@ type StructCase struct {
 	RePats   map[string]string            `json:"repats,omitempty"`   // re rule item -> the generator's own pattern
 	Entry    string                       `json:"entry,omitempty"`    // which exported entry point carries the call
 	Hidden   *desc.V                      `json:"hidden,omitempty"`   // content for Tree.hidden (named roots only)
+	// Twice (entry VStruct only): every rule set is registered twice for its target - first a
+	// decoy set, then the real one, which replaces it (SetRule stores the set given last)
+	Twice bool `json:"twice,omitempty"`
+	// LateReg: a global function of this name is registered (SetCustomerValidFn) during the
+	// call set-up - for the builder entry (VStruct) AFTER the validator object was created
+	// and configured, right before Valid.  The name is a placeholder (LATE1) that every
+	// execution replaces by a fresh one (registrations cannot be undone).
+	LateReg string `json:"latereg,omitempty"`
+}
+
+// freshLate returns a copy of the case with the LATE placeholders replaced by unused names.
+func (c *StructCase) freshLate() *StructCase {
+	if c.LateReg == "" {
+		return c
+	}
+	b, _ := jsonMarshal(c)
+	lateCounter++
+	txt := strings.ReplaceAll(string(b), "LATE1", fmt.Sprintf("late%dz", lateCounter))
+	var out StructCase
+	if err := jsonUnmarshal([]byte(txt), &out); err != nil {
+		panic(err)
+	}
+	return &out
+}
+
+// decoyOf is the rule set registered first when Twice is set.
+func decoyOf(rm map[string]string) valid.RM {
+	d := valid.NewRule()
+	for k := range rm {
+		d[k] = "required|decoy " + k
+	}
+	d["Name"] = "phone|decoy"
+	d["Zz"] = "to=1~2"
+	return d
 }
 
 // globalFnNames are registered once per process in registerGlobals.
@@ -48,9 +82,22 @@ func toRM(m map[string]string) valid.RM {
 	return rm
 }
 
+// emptyTag is the descriptor's spelling of an explicitly empty tag name (""
+// itself means "not given", i.e. the default tag): no tag rules apply then,
+// only rule sets given in the call.
+const emptyTag = "<empty>"
+
 func (c *StructCase) tagName() string {
 	if c.Tag == "" {
 		return "valid"
+	}
+	return c.tagArg()
+}
+
+// tagArg is the tag name argument as handed to the library.
+func (c *StructCase) tagArg() string {
+	if c.Tag == emptyTag {
+		return ""
 	}
 	return c.Tag
 }
@@ -84,6 +131,9 @@ func (c *StructCase) call(src interface{}) error {
 			vs.SetRule(toRM(c.PerType[n]), reflect.New(lib.Types[n]).Interface())
 		}
 	}
+	if c.LateReg != "" && c.Entry != "VStruct" && c.Entry != "" {
+		register(c.LateReg)
+	}
 	switch c.Entry {
 	case "Struct":
 		if c.Unscoped != nil {
@@ -92,22 +142,22 @@ func (c *StructCase) call(src interface{}) error {
 		return valid.Struct(src)
 	case "ValidateStruct":
 		if c.Tag != "" {
-			return valid.ValidateStruct(src, c.Tag)
+			return valid.ValidateStruct(src, c.tagArg())
 		}
 		return valid.ValidateStruct(src)
 	case "StructForFn":
 		if c.Tag != "" {
-			return valid.StructForFn(src, toRM(c.Unscoped), c.Tag)
+			return valid.StructForFn(src, toRM(c.Unscoped), c.tagArg())
 		}
 		return valid.StructForFn(src, toRM(c.Unscoped))
 	case "ValidStructForRule": // deprecated alias of StructForFn
 		if c.Tag != "" {
-			return valid.ValidStructForRule(toRM(c.Unscoped), src, c.Tag)
+			return valid.ValidStructForRule(toRM(c.Unscoped), src, c.tagArg())
 		}
 		return valid.ValidStructForRule(toRM(c.Unscoped), src)
 	case "ValidStructForMyValidFn": // deprecated: exactly one per-call function, no rule set
 		if c.Tag != "" {
-			return valid.ValidStructForMyValidFn(src, c.CallFns[0], customFn("call", c.CallFns[0]), c.Tag)
+			return valid.ValidStructForMyValidFn(src, c.CallFns[0], customFn("call", c.CallFns[0]), c.tagArg())
 		}
 		return valid.ValidStructForMyValidFn(src, c.CallFns[0], customFn("call", c.CallFns[0]))
 	case "StructForFns":
@@ -116,7 +166,7 @@ func (c *StructCase) call(src interface{}) error {
 			fm[n] = customFn("call", n)
 		}
 		if c.Tag != "" {
-			return valid.StructForFns(src, toRM(c.Unscoped), fm, c.Tag)
+			return valid.StructForFns(src, toRM(c.Unscoped), fm, c.tagArg())
 		}
 		return valid.StructForFns(src, toRM(c.Unscoped), fm)
 	case "Nested":
@@ -128,16 +178,27 @@ func (c *StructCase) call(src interface{}) error {
 	}
 	var vs *valid.VStruct
 	if c.Tag != "" {
-		vs = valid.NewVStruct(c.Tag)
+		vs = valid.NewVStruct(c.tagArg())
 	} else {
 		vs = valid.NewVStruct()
 	}
 	if c.Unscoped != nil {
+		if c.Twice {
+			vs.SetRule(decoyOf(c.Unscoped))
+		}
 		vs.SetRule(toRM(c.Unscoped))
+	}
+	if c.Twice {
+		for n, rm := range c.PerType {
+			vs.SetRule(decoyOf(rm), reflect.New(lib.Types[n]).Interface())
+		}
 	}
 	perType(vs)
 	for _, n := range c.CallFns {
 		vs.SetValidFn(n, customFn("call", n))
+	}
+	if c.LateReg != "" {
+		register(c.LateReg)
 	}
 	return vs.Valid(src)
 }
@@ -189,10 +250,11 @@ func (c *StructCase) source() interface{} {
 
 // runStructCase executes the call and the reference walk.
 func runStructCase(c *StructCase) (res *model.Result, errText string, isNil bool, panicked interface{}) {
+	c = c.freshLate()
 	src := c.source()
-	res = model.Walk(c.walkCfg(), reflect.ValueOf(src))
 	var err error
 	panicked = ev.Guard(func() { err = c.call(src) })
+	res = model.Walk(c.walkCfg(), reflect.ValueOf(src)) // (after the call: a late registration is part of the call)
 	if err == nil {
 		return res, "", true, panicked
 	}
